@@ -279,6 +279,14 @@ func (p *Path) deepEq(a, b Value, t types.Type, site ssa.Instruction) *smt.Term 
 		if x.Obj == y.Obj {
 			return smt.True
 		}
+		if p.eqIgnoreFuncs {
+			// data graphs with cycles (self-referencing component maps): each pair once
+			k := [2]*Object{x.Obj, y.Obj}
+			if p.eqSeen[k] {
+				return smt.True
+			}
+			p.eqSeen[k] = true
+		}
 		var et types.Type
 		if t != nil {
 			if pt, ok := t.Underlying().(*types.Pointer); ok {
@@ -295,6 +303,10 @@ func (p *Path) deepEq(a, b Value, t types.Type, site ssa.Instruction) *smt.Term 
 			return smt.False
 		}
 		return p.deepEq(x.V, y.V, x.T, site)
+	case FuncV:
+		if p.eqIgnoreFuncs {
+			return smt.True
+		}
 	case FloatV:
 		y := b.(FloatV)
 		if x.Conc && y.Conc {
@@ -328,6 +340,20 @@ func init() {
 			if !sameShape(x.V, y.V, 0) {
 				p.unsupported("vrt.Same: the two values have different Go shapes (%s vs %s)", x.T, y.T)
 			}
+			return BoolV{T: p.deepEq(x.V, y.V, x.T, site)}
+		}
+		I["vrt.EqualData"] = func(p *Path, a []Value, site ssa.Instruction) Value {
+			// equality of two data graphs: function values are skipped, shared/cyclic parts visited once
+			x, y := a[0].(IfaceV), a[1].(IfaceV)
+			if x.T == nil || y.T == nil {
+				return mkBool(x.T == nil && y.T == nil)
+			}
+			if !types.Identical(x.T, y.T) {
+				return mkBool(false)
+			}
+			p.eqIgnoreFuncs = true
+			p.eqSeen = map[[2]*Object]bool{}
+			defer func() { p.eqIgnoreFuncs = false }()
 			return BoolV{T: p.deepEq(x.V, y.V, x.T, site)}
 		}
 		I["vrt.Equal"] = func(p *Path, a []Value, site ssa.Instruction) Value {
